@@ -295,7 +295,8 @@ def floordiv(a, b) -> Node:
 def mod(a, b) -> Node:
     a, b = _as_num(a), _as_num(b)
     if a.sort != I or b.sort != I:
-        raise Unmodelled("% on non-integers")
+        # real remainder with the sign of the divisor (Python / torch.remainder): a - b*floor(a/b)
+        return sub(a, mul(b, mk("toreal", (fn("floor", div(a, b)),), None, R)))
     if a.op == "const" and b.op == "const" and b.val != 0:
         return const(Fraction(int(a.val) % int(b.val)), I)
     if b.op == "const" and b.val == 1:
